@@ -200,8 +200,54 @@ def shard(ctx, payload):
     ctx.label('codes-' + kind, len(codes))
 
 
+def examine_history(case):
+    """Steps asked one after the other from a freshly reset state; the last step is judged."""
+    from checks.c14 import reset_graders
+    reset_graders()
+    _fcache.clear()
+    out = []
+    for step in case['steps']:
+        out = examine_point(step)
+    for v in out:
+        v['sig'] = v['sig'] + ['after-other-lookups']
+        v['case'] = case
+    return out
+
+
+def shard_mixed(ctx, payload):
+    """History independence: the same odd distances are asked from BOTH table years, both genders and several ages in one
+    process, in seeded shuffled segments of <= 40 lookups from a reset state; each answer is still judged by the bracket
+    oracle of its own table."""
+    from checks.c14 import reset_graders
+    n = payload
+    rng = random.Random(derive_seed(ctx.seed, 'C15-mixed', ctx.shard))
+    pool = [250, 700, 1234, 4500, 7000, 8047, 9000, 11000, 12345, 17000, 23456, 31000, 45000, 60000, 120000, 180000]
+    done = 0
+    while done < n:
+        reset_graders()
+        _fcache.clear()
+        seg = []
+        codes = rng.sample(pool, 5)
+        for _ in range(40):
+            m = rng.choice(codes) if rng.randrange(4) else rng.randrange(60, 190000)
+            step = {'year': rng.choice([2015, 2023]), 'g': rng.choice('mf'), 'code': str(m), 'metres': m,
+                    'ages': [rng.choice(AGES)]}
+            seg.append(step)
+            ctx.count()
+            done += 1
+            vs = examine_point(step)
+            if vs:
+                for v in vs:
+                    v['sig'] = v['sig'] + ['after-other-lookups']
+                    v['case'] = {'kind': 'history', 'steps': list(seg)}
+                ctx.violations(vs)
+                break
+    ctx.label('interleaved-history-lookups', done)
+
+
 def run(ctx):
     thorough = ctx.tier == 'thorough'
+    run_shards(ctx, 'checks.c15', 'shard_mixed', [12000 if thorough else 1500] * 16, disjoint=False)
     payloads = []
     nparts = 8 if thorough else 2
     for year in (2015, 2023):
@@ -216,4 +262,28 @@ examine_point = examine
 
 
 def examine(case):   # noqa: F811  (replay entry point dispatches on the case shape)
+    if case.get('kind') == 'history':
+        return examine_history(case)
     return examine_order(case) if case.get('kind') == 'order' else examine_point(case)
+
+
+def shrink(bucket):
+    case = bucket['case']
+    if case.get('kind') != 'history':
+        return None
+    sig = bucket['sig']
+    steps = list(case['steps'])
+
+    def fails(st):
+        return any(v['sig'] == sig for v in examine_history({'kind': 'history', 'steps': st}))
+    if not fails(steps):
+        return None
+    i = 0
+    while i < len(steps) - 1:
+        t = steps[:i] + steps[i + 1:]
+        if fails(t):
+            steps = t
+        else:
+            i += 1
+    v = [v for v in examine_history({'kind': 'history', 'steps': steps}) if v['sig'] == sig][0]
+    return {'case': v['case'], 'observed': v['observed']}
